@@ -1072,6 +1072,14 @@ impl<'a> Synth<'a> {
     }
     fn stmts(&mut self, depth: u32) {
         for _ in 0..self.rng.gen_range(1..5) {
+            // comment lines that LOOK like statements, between real statements at the same indent: whatever a pass
+            // decides per line (alignment, wrapping, spacing) must leave them alone, also after an earlier pass changed
+            // the number of lines above them
+            if self.rng.gen_bool(0.12) {
+                let c = ["// a := 1;", "(* c := 3; *)", "// f(x => 1, y := 2);", "(* k : INT := 5; *)", "// very_long_name := a + b;   trailing",
+                         "{attribute 'x := y'}", "// 'str := ' \"w => \""].choose(self.rng).unwrap().to_string();
+                self.push(c);
+            }
             match self.rng.gen_range(0..12) {
                 0 if depth > 0 => {
                     let mut v = vec![self.kw("IF")];
